@@ -156,6 +156,16 @@ class Module:
                 self.funcs[q] = fi
                 self.lambdas.append(fi)
 
+    def reindex(self):
+        """rebuild the tables after the tree was rewritten in place (normalise.py)"""
+        self.imports, self.assigns, self.assign_nodes, self.multi_assigned = {}, {}, {}, set()
+        self.funcs, self.classes, self.lambdas = {}, {}, []
+        ast.fix_missing_locations(self.tree)
+        for n in ast.walk(self.tree):
+            for c in ast.iter_child_nodes(n):
+                c._parent = n   # type: ignore[attr-defined]
+        self._index()
+
     def _lambda_ordinal(self, owner, lam):
         root = owner.node if owner else self.tree
         k = 0
@@ -237,6 +247,11 @@ class Program:
                     self.keyword_files.append(os.path.relpath(p, pkg_root))
         self._const_cache: dict[tuple[str, str], object] = {}
         self._in_progress: set[tuple[str, str]] = set()
+        self.normalise_log: list[str] = []
+        if not os.environ.get("MDSTATIC_NO_NORMALISE"):
+            from .normalise import normalise_program
+            self.normalise_log = normalise_program(self)
+            self._const_cache.clear()
 
     # ---------------------------------------------------------------- lookup
     def mod(self, short: str) -> Module:
